@@ -133,7 +133,8 @@ def _worker(args):
             break
         try:
             signal.signal(signal.SIGALRM, _on_alarm)
-            signal.alarm(SCENARIO_WALL_S)
+            # (a C07 / C12 / C16 "scenario" is dozens of executions)
+            signal.alarm(SCENARIO_WALL_S * int(REGISTRY.get(prop, {}).get("scenario_wall_factor", 1)))
             try:
                 sc, res, vios = run_one(prop, family, seed)
             finally:
